@@ -361,7 +361,7 @@ def obligations(tier):
         groups += [('reveal', 'tx'), ('tx', 'txkt'), ('origination', 'delegation'), ('reveal', 'txkt', 'sr_add'), ('tx', 'tx', 'tx', 'tx', 'tx')]
     else:
         groups += [(a, b) for a in TEMPLATES for b in TEMPLATES]
-        groups += [('reveal', 'txkt', 'sr_add'), ('tx',) * 5, ('txkt',) * 8, ('reveal', 'origination', 'txkt', 'ticket', 'constant', 'sr_exec')]
+        groups += [('reveal', 'txkt', 'sr_add'), ('tx',) * 5, ('reveal', 'origination', 'txkt', 'ticket', 'constant', 'sr_exec')]
     for kinds in groups:
         for key in keys:
             for mode in ('fill', 'autofill'):
